@@ -452,6 +452,50 @@ def main(out_path, repo='/repo'):
     gen_map('mapl', {'Loc': 'r x'}, '', None)
     w('End MapLoc.')
     w('')
+    # per-constructor unfolding equations of mapl_* for the recursive block: `cbn` exposes the raw
+    # mutual fix on stuck arguments, so proofs rewrite with these (hint db mapl_eqs) instead.
+    # The right-hand side is the constructor applied to the mapped fields, written with the global names.
+    big2 = max(comps, key=len)
+    touched2 = {n: (n == 'Loc') for n in T}
+    ch2 = True
+    while ch2:
+        ch2 = False
+        for n in T:
+            if not touched2[n] and any(touched2.get(m, False) for m in deps[n]):
+                touched2[n] = True
+                ch2 = True
+
+    def m_of2(t, v):
+        k = t[0]
+        if not any(touched2.get(m, False) for m in names_in(t)):
+            return v
+        if k == 'name':
+            return '(mapl_%s r %s)' % (cn(t[1]), v)
+        if k == 'vec':
+            y = fresh()
+            return '(map (fun %s => %s) %s)' % (y, m_of2(t[1], y), v)
+        if k == 'opt':
+            y = fresh()
+            return '(match %s with Some %s => Some %s | None => None end)' % (v, y, m_of2(t[1], y))
+        if k == 'tuple':
+            ys = [fresh() for _ in t[1]]
+            return '(match %s with (%s) => (%s) end)' % (v, ', '.join(ys), ', '.join(m_of2(x, y) for x, y in zip(t[1], ys)))
+    w('Section MaplEqs.')
+    w('  Variable r : Loc -> Loc.')
+    eqnames = []
+    for n in big2:
+        for c, fs in variants(T, n):
+            bn = binder_names(fs)
+            binders = ' '.join('(%s : %s)' % (b, coq_ty(t)) for b, (_, t) in zip(bn, fs))
+            fa = 'forall %s, ' % binders if binders else ''
+            rhs = '%s %s' % (c, ' '.join(m_of2(t, b) for b, (_, t) in zip(bn, fs)))
+            w('  Lemma mapl_eq_%s : %smapl_%s r (%s %s) = %s.' % (c, fa, cn(n), c, ' '.join(bn), rhs))
+            w('  Proof. reflexivity. Qed.')
+            eqnames.append('mapl_eq_' + c)
+    w('End MaplEqs.')
+    for i in range(0, len(eqnames), 20):
+        w('#[export] Hint Rewrite %s : mapl_eqs.' % ' '.join(eqnames[i:i + 20]))
+    w('')
     w('Section MapStr.')
     w('  (* rewrites the text of the parts of Expression::StringLiteral only *)')
     w('  Variable g : string -> string.')
